@@ -54,3 +54,8 @@ CHECKS["C14"] = (
     "Bad frames are rebuilt with valid CRC and checksum so they pass validation and reach the parsers; they answer every request of refresh, apply (with and without pending property writes), get_capabilities (one and two pages), toggle_display and start_self_clean, alone or mixed before/after the model's good answers. No operation may raise; when the bad members are irrelevant by specification the final client state must equal that of the clean run.",
     "The 'irrelevant by specification' classes are listed in the evidence assumptions; other bad frames only get the no-raise oracle.",
     "DESIGN.md 3/C14")
+CHECKS["C15"] = (
+    "exploration", "metamorphic relations over generated record lists (whole = in-order merge of singletons; one page = two pages at every split) via Hypothesis + per-id/size/value sweep",
+    "No model of the reader table is needed: the capabilities of a list must equal the in-order merge of the capabilities of its single records, and get_capabilities() against a device serving the list in one page or split at k with the more-flag must expose identical capability attributes with exactly one additional request. Every known and several unknown ids x sizes 0..10 x distinguishing first values in front of known records; random lists of up to 12 records.",
+    "Records are well-formed (declared size == data present); trailer shapes as captured.",
+    "DESIGN.md 3/C15")
